@@ -244,13 +244,22 @@ def recipes(rnd, scale):
 NEGS = (("Neg_PhaseText_parse.cfg", "ParseAgrees"), ("Neg_PhaseText_format.cfg", "Rendered"))
 
 
+def _tlc(module, cfg, **kw):
+    """tlc.run; a run that ends without any verdict (JVM killed from outside on a
+    shared machine) is repeated once before it is reported as a machinery error"""
+    r = tlc.run(module, cfg, **kw)
+    if not r.ok and r.violation is None:
+        r = tlc.run(module, cfg, **kw)
+    return r
+
+
 def model_checking(thorough):
     w = 8 if thorough else 6
     out = [("MC_PhaseText_" + ("full" if thorough else "quick"),
-            tlc.run("MC_PhaseText", "MC_PhaseText_full.cfg" if thorough else "MC_PhaseText_quick.cfg", workers=w,
+            _tlc("MC_PhaseText", "MC_PhaseText_full.cfg" if thorough else "MC_PhaseText_quick.cfg", workers=w,
                     timeout=3000), True, None)]
     for cfg, inv in NEGS:
-        out.append(("neg:" + cfg, tlc.run("MC_PhaseText", cfg, workers=2, timeout=600), False, inv))
+        out.append(("neg:" + cfg, _tlc("MC_PhaseText", cfg, workers=2, timeout=600), False, inv))
     return out
 
 
